@@ -25,661 +25,6 @@ broadcast use {f64ax::group_f64_axioms, dispax::axiom_display_total, cloneax::ax
 //@ include graph_spec.rs
 //@ include adjvec.rs
 
-impl<T, A> Node<T, A>
-where
-    T: Eq + Clone + PartialOrd + Ord + Hash + Send + Sync + Display,
-    A: Clone,
-{
-//@ extract fn src/node.rs from_name props=C01,C20 ty=Node
-//@ rewrite
--> Arc<Node<T, A>>
-//@ with
--> (r: Arc<Node<T, A>>)
-//@ spec
-    ensures
-        // [C01.node.from_name]
-        r.name == name,
-        r.attributes.is_none(),
-//@ end
-}
-
-impl<T, A> Edge<T, A>
-where
-    T: Eq + Clone + PartialOrd + Ord + Hash + Send + Sync + Display,
-    A: Clone,
-{
-//@ extract fn src/edge.rs new props=C01,C20 ty=Edge
-//@ rewrite
--> Arc<Edge<T, A>>
-//@ with
--> (r: Arc<Edge<T, A>>)
-//@ rewrite
-f64::NAN
-//@ with
-vf64_nan()
-//@ spec
-    ensures
-        // [C01.edge.new_fields]
-        r.u == u, r.v == v, r.attributes.is_none(), r.weight == f64_nan(),
-//@ end
-
-//@ extract fn src/edge.rs with_weight props=C01,C20 ty=Edge
-//@ rewrite
--> Arc<Edge<T, A>>
-//@ with
--> (r: Arc<Edge<T, A>>)
-//@ spec
-    ensures
-        // [C01.edge.with_weight_fields]
-        r.u == u, r.v == v, r.attributes.is_none(), r.weight == weight,
-//@ end
-
-//@ extract fn src/edge.rs reversed props=C01,C20 ty=Edge
-//@ rewrite
--> Edge<T, A>
-//@ with
--> (r: Edge<T, A>)
-//@ spec
-    ensures
-        // [C01.edge.reversed_flips]
-        r.u == self.v, r.v == self.u, r.attributes == self.attributes, r.weight == self.weight,
-//@ end
-
-//@ extract fn src/edge.rs ordered props=C01,C20 ty=Edge
-//@ rewrite
--> Edge<T, A>
-//@ with
--> (r: Edge<T, A>)
-//@ spec
-    requires
-        key_model_ok::<T>(),
-    ensures
-        // [C01.edge.ordered_canonical]
-        r.attributes == self.attributes, r.weight == self.weight,
-        tgt(self.u, self.v) ==> r.u == self.v && r.v == self.u,
-        !tgt(self.u, self.v) ==> r.u == self.u && r.v == self.v,
-//@ end
-}
-
-impl<T, A> Graph<T, A>
-where
-    T: Eq + Clone + PartialOrd + Ord + Hash + Send + Sync + Display,
-    A: Clone,
-{
-//@ extract fn src/graph/creation.rs new props=C01,C20 ty=Graph
-//@ rewrite
--> Graph<T, A>
-//@ with
--> (g: Graph<T, A>)
-//@ spec
-    requires
-        key_model_ok::<T>(),
-    ensures
-        // [C01.new.empty_wf]
-        g.wf_nodes(),
-        g.nodes_vec@.len() == 0,
-        g.edges_map@.len() == 0,
-        g.specs == specs,
-//@ end
-
-//@ extract fn src/graph/query.rs get_node_index props=C02,C20 ty=Graph
-//@ rewrite
--> Result<usize, Error>
-//@ with
--> (r: Result<usize, Error>)
-//@ spec
-    requires
-        self.wf_nodes(),
-    ensures
-        // [C02.lookup.name_to_index]
-        self.nodes_map@.contains_key(*node_name) ==> r.is_ok() && r.unwrap() == self.nodes_map@[*node_name]
-            && r.unwrap() < self.nodes_vec@.len() && self.nodes_vec@[r.unwrap() as int].name == *node_name,
-        !self.nodes_map@.contains_key(*node_name) ==> is_err_kind(r, ErrorKind::NodeNotFound),
-//@ end
-
-//@ extract fn src/graph/query.rs get_node props=C02,C20 ty=Graph
-//@ rewrite
--> Option<&Arc<Node<T, A>>>
-//@ with
--> (r: Option<&Arc<Node<T, A>>>)
-//@ spec
-    requires
-        self.wf_nodes(),
-    ensures
-        // [C02.lookup.get_node]
-        self.nodes_map@.contains_key(name) ==> r.is_some() && **r.unwrap() == *self.nodes_vec@[self.nodes_map@[name] as int] && r.unwrap().name == name,
-        !self.nodes_map@.contains_key(name) ==> r.is_none(),
-//@ end
-
-//@ extract fn src/graph/query.rs has_node props=C02,C20 ty=Graph
-//@ rewrite
--> bool
-//@ with
--> (r: bool)
-//@ spec
-    requires
-        self.wf_nodes(),
-    ensures
-        // [C02.lookup.has_node]
-        r == self.nodes_map@.contains_key(*node_name),
-//@ end
-
-//@ extract fn src/graph/query.rs has_nodes props=C02,C20 ty=Graph
-//@ rewrite
--> bool
-//@ with
--> (r: bool)
-//@ spec
-    requires
-        self.wf_nodes(),
-    ensures
-        // [C02.lookup.has_nodes]
-        r == (forall|i: int| 0 <= i < node_names@.len() ==> self.nodes_map@.contains_key(#[trigger] node_names@[i])),
-//@ rewrite
-for node_name in node_names
-//@ with
-for node_name in it: node_names
-//@ loop 1
-            invariant
-                self.wf_nodes(),
-                forall|i: int| 0 <= i < it.index@ ==> self.nodes_map@.contains_key(#[trigger] node_names@[i]),
-//@ end
-
-//@ extract fn src/graph/query.rs number_of_nodes props=C09,C20 ty=Graph
-//@ rewrite
--> usize
-//@ with
--> (r: usize)
-//@ spec
-    ensures
-        // [C09.count.nodes]
-        r == self.nodes_vec@.len(),
-//@ end
-
-//@ extract fn src/graph/creation.rs add_node props=C01,C03,C20 ty=Graph
-//@ spec
-    requires
-        old(self).wf_nodes(),
-    ensures
-        // [C01.add_node.wf_nodes_preserved]
-        final(self).wf_nodes(),
-        // [C01.add_node.replace_in_place]
-        old(self).nodes_map@.contains_key(node.name) ==> final(self).nodes_vec@ == old(self).nodes_vec@.update(old(self).nodes_map@[node.name] as int, node),
-        // [C01.add_node.append]
-        !old(self).nodes_map@.contains_key(node.name) ==> final(self).nodes_vec@ == old(self).nodes_vec@.push(node),
-        // [C01.add_node.name_index_frame]
-        old(self).nodes_map@.contains_key(node.name) ==> final(self).nodes_map@ == old(self).nodes_map@,
-        !old(self).nodes_map@.contains_key(node.name) ==> final(self).nodes_map@ == old(self).nodes_map@.insert(node.name, old(self).nodes_vec@.len() as usize),
-        // [C01.add_node.edge_store_frame]
-        final(self).edges@ == old(self).edges@,
-        final(self).edges_map@ == old(self).edges_map@,
-        final(self).specs == old(self).specs,
-        final(self).successors@ == old(self).successors@,
-        final(self).predecessors@ == old(self).predecessors@,
-        // [C01.add_node.wf_estore_preserved]
-        old(self).wf_estore() ==> final(self).wf_estore(),
-        // [C03.add_node.traversal_rows_frame]
-        old(self).nodes_map@.contains_key(node.name) ==> final(self).successors_vec@ == old(self).successors_vec@ && final(self).predecessors_vec@ == old(self).predecessors_vec@,
-        !old(self).nodes_map@.contains_key(node.name) ==> rows_extended(old(self).successors_vec@, final(self).successors_vec@) && rows_extended(old(self).predecessors_vec@, final(self).predecessors_vec@),
-//@ tail
-        proof {
-            if old(self).wf_estore() {
-                lemma_estore_frame(*old(self), *self);
-            }
-        }
-//@ end
-
-//@ extract fn src/graph/query.rs get_edge_by_indexes props=C02,C20 ty=Graph
-//@ rewrite
--> Result<&Edge<T, A>, Error>
-//@ with
--> (r: Result<&Edge<T, A>, Error>)
-//@ spec
-    requires
-        self.wf_estore(),
-    ensures
-        // [C02.pair.by_indexes_lookup]
-        self.has_pair(self.canon(u, v).0, self.canon(u, v).1) ==> r.is_ok() && *r.unwrap() == *self.pair_list(self.canon(u, v).0, self.canon(u, v).1)[0],
-        !self.has_pair(self.canon(u, v).0, self.canon(u, v).1) ==> is_err_kind(r, ErrorKind::EdgeNotFound),
-//@ before match self.edges_map.get(&ordered_u) {
-        proof {
-            // instantiate wf_estore at the canonical key: a stored list is never empty
-            if self.has_pair(ordered_u, ordered_v) {
-                assert(self.pair_list(ordered_u, ordered_v).len() > 0);
-            }
-        }
-//@ end
-
-//@ extract fn src/graph/query.rs get_edges_by_indexes props=C02,C20 ty=Graph
-//@ rewrite
--> Result<Vec<&Arc<Edge<T, A>>>, Error>
-//@ with
--> (r: Result<Vec<&Arc<Edge<T, A>>>, Error>)
-//@ spec
-    requires
-        self.wf_estore(),
-    ensures
-        // [C02.pair.by_indexes_all_parallel_in_order]
-        self.has_pair(self.canon(u, v).0, self.canon(u, v).1) ==> r.is_ok()
-            && r.unwrap()@.len() == self.pair_list(self.canon(u, v).0, self.canon(u, v).1).len()
-            && forall|k: int| 0 <= k < r.unwrap()@.len() ==> **(#[trigger] r.unwrap()@[k]) == *self.pair_list(self.canon(u, v).0, self.canon(u, v).1)[k],
-        !self.has_pair(self.canon(u, v).0, self.canon(u, v).1) ==> is_err_kind(r, ErrorKind::EdgeNotFound),
-//@ end
-
-//@ extract fn src/graph/query.rs get_edge props=C02,C20 ty=Graph
-//@ rewrite
--> Result<&Edge<T, A>, Error>
-//@ with
--> (r: Result<&Edge<T, A>, Error>)
-//@ spec
-    requires
-        self.wf_nodes(),
-        self.wf_estore(),
-    ensures
-        // [C02.pair.get_edge_guard_order]
-        self.specs.multi_edges ==> is_err_kind(r, ErrorKind::WrongMethod),
-        !self.specs.multi_edges && (!self.nodes_map@.contains_key(u) || !self.nodes_map@.contains_key(v)) ==> is_err_kind(r, ErrorKind::NodeNotFound),
-        // [C02.pair.get_edge_answer]
-        !self.specs.multi_edges && self.nodes_map@.contains_key(u) && self.nodes_map@.contains_key(v) ==> ({
-            let c = self.canon(self.nodes_map@[u], self.nodes_map@[v]);
-            &&& self.has_pair(c.0, c.1) ==> r.is_ok() && *r.unwrap() == *self.pair_list(c.0, c.1)[0]
-            &&& !self.has_pair(c.0, c.1) ==> is_err_kind(r, ErrorKind::EdgeNotFound)
-        }),
-//@ end
-
-//@ extract fn src/graph/query.rs get_edges props=C02,C20 ty=Graph
-//@ rewrite
--> Result<Vec<&Arc<Edge<T, A>>>, Error>
-//@ with
--> (r: Result<Vec<&Arc<Edge<T, A>>>, Error>)
-//@ spec
-    requires
-        self.wf_nodes(),
-        self.wf_estore(),
-    ensures
-        // [C02.pair.get_edges_guard_order]
-        !self.specs.multi_edges ==> is_err_kind(r, ErrorKind::WrongMethod),
-        self.specs.multi_edges && (!self.nodes_map@.contains_key(u) || !self.nodes_map@.contains_key(v)) ==> is_err_kind(r, ErrorKind::NodeNotFound),
-        // [C02.pair.get_edges_answer]
-        self.specs.multi_edges && self.nodes_map@.contains_key(u) && self.nodes_map@.contains_key(v) ==> ({
-            let c = self.canon(self.nodes_map@[u], self.nodes_map@[v]);
-            &&& self.has_pair(c.0, c.1) ==> r.is_ok() && r.unwrap()@.len() == self.pair_list(c.0, c.1).len()
-                    && forall|k: int| 0 <= k < r.unwrap()@.len() ==> **(#[trigger] r.unwrap()@[k]) == *self.pair_list(c.0, c.1)[k]
-            &&& !self.has_pair(c.0, c.1) ==> is_err_kind(r, ErrorKind::EdgeNotFound)
-        }),
-//@ end
-
-//@ extract fn src/graph/creation.rs add_edge props=C01,C02,C03,C20 ty=Graph
-//@ if main
-//@ head
-    #[verifier::external_body] // proved-by-cases: the body is verified in the variants dm, ds, um, us of this unit
-//@ fi
-//@ rewrite
--> Result<(), Error>
-//@ with
--> (r: Result<(), Error>)
-//@ spec
-    requires
-        old(self).wf_nodes(),
-        old(self).wf_estore(),
-//@ if dm
-        add_edge_case(*old(self), true, true),
-//@ fi
-//@ if ds
-        add_edge_case(*old(self), true, false),
-//@ fi
-//@ if um
-        add_edge_case(*old(self), false, true),
-//@ fi
-//@ if us
-        add_edge_case(*old(self), false, false),
-//@ fi
-    ensures
-        // [C01.add_edge.outcome]
-        ae_outcome(*old(self), *edge, *final(self), r),
-        // [C01.add_edge.error_is_noop]
-        ae_error_is_noop(*old(self), *edge, *final(self), r),
-        // [C01.add_edge.drop_is_noop]
-        ae_drop_is_noop(*old(self), *edge, *final(self), r),
-        // [C01.add_edge.ignored_duplicate_is_noop]
-        ae_ignored_duplicate_is_noop(*old(self), *edge, *final(self), r),
-        // [C01.add_edge.nodes_created_source_first]
-        ae_nodes(*old(self), *edge, *final(self), r),
-        // [C01.add_edge.wf_preserved]
-        ae_wf(*old(self), *edge, *final(self), r),
-        // [C01.add_edge.store_effect]
-        ae_store(*old(self), *edge, *final(self), r),
-        // [C03.add_edge.traversal_effect]
-        ae_traversal(*old(self), *edge, *final(self), r),
-//@ after let edge_already_exists = self.get_edge_by_indexes(u_node_index, v_node_index).is_ok();
-        let ghost g1 = *self;
-        proof {
-            // a pair one of whose nodes was just created cannot be in the store: keys are < n by wf_estore
-            let c = g1.canon(u_node_index, v_node_index);
-            if edge_already_exists {
-                assert(g1.has_pair(c.0, c.1));
-                assert(old(self).has_pair(c.0, c.1));
-                assert(c.0 < old(self).n() && c.1 < old(self).n());
-                assert(old(self).knows(edge.u) && old(self).knows(edge.v));
-            }
-            assert(edge_already_exists == old(self).existed(*edge));
-            assert(edge_already_exists ==> *self == *old(self));
-        }
-//@ before match self.specs.multi_edges {
-        proof {
-            lemma_estore_frame(g1, *self);
-        }
-        let ghost g2 = *self;
-//@ before #3 Ok(())
-        proof {
-            // the store changed at the canonical key only: the list there is [ordered] or the old list plus ordered
-            lemma_estore_after_store(g2, *self, ordered_edge_u, ordered_edge_v, ordered);
-        }
-//@ end
-
-//@ extract fn src/graph/creation.rs add_edges props=C01,C20 ty=Graph
-//@ rewrite
--> Result<(), Error>
-//@ with
--> (r: Result<(), Error>)
-//@ rewrite
-for edge in edges
-//@ with
-for edge in it: edges
-//@ spec
-    requires
-        old(self).wf_nodes(),
-        old(self).wf_estore(),
-    ensures
-        // [C01.add_edges.prefix]
-        batch_rel(*old(self), edges_of(edges@), *final(self), r),
-        // [C01.add_edges.wf_preserved]
-        final(self).wf_nodes(),
-        final(self).wf_estore(),
-        final(self).specs == old(self).specs,
-//@ loop 1
-            invariant
-                self.wf_nodes(),
-                self.wf_estore(),
-                self.specs == old(self).specs,
-                exists|h: Seq<Graph<T, A>>| #[trigger] prefix_applied(*old(self), edges_of(edges@), h, it.index@, *self),
-//@ before for edge in edges
-        proof {
-            assert(prefix_applied(*old(self), edges_of(edges@), seq![*self], 0, *self));
-        }
-//@ before self.add_edge(edge)?;
-            let ghost s0 = *self;
-            let ghost h0 = choose|h: Seq<Graph<T, A>>| #[trigger] prefix_applied(*old(self), edges_of(edges@), h, it.index@, s0);
-//@ after self.add_edge(edge)?;
-            proof {
-                let h1 = h0.push(*self);
-                assert forall|j: int| 0 <= j < it.index@ + 1 implies add_edge_rel(h1[j], edges_of(edges@)[j], #[trigger] h1[j + 1], Ok(())) by {
-                    if j < it.index@ {
-                        assert(h1[j] == h0[j] && h1[j + 1] == h0[j + 1]);
-                    }
-                }
-                assert(prefix_applied(*old(self), edges_of(edges@), h1, it.index@ + 1, *self));
-            }
-//@ end
-
-//@ extract fn src/graph/creation.rs add_edge_tuples props=C01,C20 ty=Graph
-//@ rewrite
--> Result<(), Error>
-//@ with
--> (r: Result<(), Error>)
-//@ rewrite
-for edge in edges
-//@ with
-for edge in it: edges
-//@ spec
-    requires
-        old(self).wf_nodes(),
-        old(self).wf_estore(),
-    ensures
-        // [C01.add_edge_tuples.prefix]
-        batch_rel(*old(self), tuple_edges::<T, A>(edges@), *final(self), r),
-        // [C01.add_edge_tuples.wf_preserved]
-        final(self).wf_nodes(),
-        final(self).wf_estore(),
-        final(self).specs == old(self).specs,
-//@ loop 1
-            invariant
-                self.wf_nodes(),
-                self.wf_estore(),
-                self.specs == old(self).specs,
-                exists|h: Seq<Graph<T, A>>| #[trigger] prefix_applied(*old(self), tuple_edges::<T, A>(edges@), h, it.index@, *self),
-//@ before for edge in edges
-        proof {
-            assert(prefix_applied(*old(self), tuple_edges::<T, A>(edges@), seq![*self], 0, *self));
-        }
-//@ before self.add_edge(Edge::new(edge.0, edge.1))?;
-            let ghost s0 = *self;
-            let ghost h0 = choose|h: Seq<Graph<T, A>>| #[trigger] prefix_applied(*old(self), tuple_edges::<T, A>(edges@), h, it.index@, s0);
-//@ after self.add_edge(Edge::new(edge.0, edge.1))?;
-            proof {
-                let h1 = h0.push(*self);
-                assert forall|j: int| 0 <= j < it.index@ + 1 implies add_edge_rel(h1[j], tuple_edges::<T, A>(edges@)[j], #[trigger] h1[j + 1], Ok(())) by {
-                    if j < it.index@ {
-                        assert(h1[j] == h0[j] && h1[j + 1] == h0[j + 1]);
-                    }
-                }
-                assert(prefix_applied(*old(self), tuple_edges::<T, A>(edges@), h1, it.index@ + 1, *self));
-            }
-//@ end
-
-//@ extract fn src/graph/creation.rs add_edge_tuple props=C01,C20 ty=Graph
-//@ rewrite
--> Result<(), Error>
-//@ with
--> (r: Result<(), Error>)
-//@ spec
-    requires
-        old(self).wf_nodes(),
-        old(self).wf_estore(),
-    ensures
-        // [C01.add_edge_tuple.is_add_edge_of_unweighted_edge]
-        add_edge_rel(*old(self), Edge { u: u, v: v, attributes: None, weight: f64_nan() }, *final(self), r),
-//@ end
-
-//@ extract fn src/graph/creation.rs add_nodes props=C01,C20 ty=Graph
-//@ rewrite
-for node in nodes
-//@ with
-for node in it: nodes
-//@ spec
-    requires
-        old(self).wf_nodes(),
-    ensures
-        // [C01.add_nodes.wf_and_frame]
-        final(self).wf_nodes(),
-        old(self).wf_estore() ==> final(self).wf_estore(),
-        final(self).edges_map@ == old(self).edges_map@,
-        final(self).specs == old(self).specs,
-        // [C01.add_nodes.all_named_nodes_known_old_positions_kept]
-        forall|j: int| 0 <= j < nodes@.len() ==> final(self).knows(#[trigger] nodes@[j].name),
-        forall|k: T| old(self).knows(k) ==> final(self).knows(k) && #[trigger] final(self).nodes_map@[k] == old(self).nodes_map@[k],
-        final(self).n() >= old(self).n(),
-//@ loop 1
-            invariant
-                self.wf_nodes(),
-                old(self).wf_estore() ==> self.wf_estore(),
-                self.edges_map@ == old(self).edges_map@,
-                self.specs == old(self).specs,
-                forall|j: int| 0 <= j < it.index@ ==> self.knows(#[trigger] nodes@[j].name),
-                forall|k: T| old(self).knows(k) ==> self.knows(k) && #[trigger] self.nodes_map@[k] == old(self).nodes_map@[k],
-                self.n() >= old(self).n(),
-//@ end
-
-//@ extract fn src/graph/creation.rs new_from_nodes_and_edges props=C01,C20 ty=Graph
-//@ rewrite
--> Result<Graph<T, A>, Error>
-//@ with
--> (r: Result<Graph<T, A>, Error>)
-//@ spec
-    requires
-        key_model_ok::<T>(),
-    ensures
-        // [C01.new_from_nodes_and_edges.is_new_then_nodes_then_edges]
-        exists|g1: Graph<T, A>, g2: Graph<T, A>, r2: Result<(), Error>| {
-            &&& g1.wf_nodes() && g1.wf_estore() && g1.edges_map@.len() == 0 && g1.specs == specs
-            &&& forall|j: int| 0 <= j < nodes@.len() ==> g1.knows(#[trigger] nodes@[j].name)
-            &&& #[trigger] batch_rel(g1, edges_of(edges@), g2, r2)
-            &&& (r2.is_ok() ==> r.is_ok() && r.unwrap() == g2)
-            &&& (r2.is_err() ==> r.is_err())
-        },
-        // [C01.new_from_nodes_and_edges.result_wf]
-        r.is_ok() ==> r.unwrap().wf_nodes() && r.unwrap().wf_estore() && r.unwrap().specs == specs,
-//@ end
-
-//@ extract fn src/graph/ensure.rs ensure_directed props=C02,C20 ty=Graph
-//@ rewrite
--> Result<(), Error>
-//@ with
--> (r: Result<(), Error>)
-//@ spec
-    ensures
-        // [C02.guards.ensure_directed]
-        self.specs.directed ==> r.is_ok(),
-        !self.specs.directed ==> is_err_kind(r, ErrorKind::WrongMethod),
-//@ end
-
-//@ extract fn src/graph/ensure.rs ensure_undirected props=C02,C20 ty=Graph
-//@ rewrite
--> Result<(), Error>
-//@ with
--> (r: Result<(), Error>)
-//@ spec
-    ensures
-        // [C02.guards.ensure_undirected]
-        !self.specs.directed ==> r.is_ok(),
-        self.specs.directed ==> is_err_kind(r, ErrorKind::WrongMethod),
-//@ end
-
-//@ extract fn src/graph/ensure.rs ensure_not_multi_edges props=C02,C20 ty=Graph
-//@ rewrite
--> Result<(), Error>
-//@ with
--> (r: Result<(), Error>)
-//@ spec
-    ensures
-        // [C02.guards.ensure_not_multi_edges]
-        !self.specs.multi_edges ==> r.is_ok(),
-        self.specs.multi_edges ==> is_err_kind(r, ErrorKind::WrongMethod),
-//@ end
-
-//@ extract fn src/graph/query.rs get_successor_nodes_by_index props=C02,C03,C20 ty=Graph
-//@ rewrite
--> &Vec<AdjacentNode>
-//@ with
--> (r: &Vec<AdjacentNode>)
-//@ spec
-    requires
-        *node_index < self.successors_vec@.len(),
-    ensures
-        // [C02.row.successors_exact, C03.consumers.read_successor_row]
-        *r == self.successors_vec@[*node_index as int],
-//@ end
-
-//@ extract fn src/graph/query.rs get_predecessor_nodes_by_index props=C02,C03,C20 ty=Graph
-//@ rewrite
--> &Vec<AdjacentNode>
-//@ with
--> (r: &Vec<AdjacentNode>)
-//@ spec
-    requires
-        *node_index < self.predecessors_vec@.len(),
-    ensures
-        // [C02.row.predecessors_exact, C03.consumers.read_predecessor_row]
-        *r == self.predecessors_vec@[*node_index as int],
-//@ end
-
-//@ extract fn src/graph/query.rs get_successors_map props=C02,C20 ty=Graph
-//@ rewrite
--> &HashMap<T, HashSet<T>>
-//@ with
--> (r: &HashMap<T, HashSet<T>>)
-//@ spec
-    ensures
-        // [C02.maps.successors_map_is_the_store]
-        *r == self.successors,
-//@ end
-
-//@ extract fn src/graph/query.rs get_predecessors_map props=C02,C20 ty=Graph
-//@ rewrite
--> &HashMap<T, HashSet<T>>
-//@ with
--> (r: &HashMap<T, HashSet<T>>)
-//@ spec
-    ensures
-        // [C02.maps.predecessors_map_is_the_store]
-        *r == self.predecessors,
-//@ end
-
-// A5: assumed contract on an unverified graphrs function (values().flatten().collect() pipeline)
-//@ extract fn src/graph/query.rs get_all_edges ty=Graph
-//@ head
-    #[verifier::external_body]
-//@ rewrite
--> Vec<&Arc<Edge<T, A>>>
-//@ with
--> (r: Vec<&Arc<Edge<T, A>>>)
-//@ spec
-    ensures
-        r@.len() == self.stored_edge_count(),
-//@ end
-
-//@ extract fn src/graph/query.rs number_of_edges props=C09,C20 ty=Graph
-//@ rewrite
--> usize
-//@ with
--> (r: usize)
-//@ spec
-    ensures
-        // [C09.count.edges_is_len_of_all_edges]
-        r == self.stored_edge_count(),
-//@ end
-
-//@ extract fn src/graph/density.rs get_density props=C09,C20 ty=Graph
-//@ rewrite
--> f64
-//@ with
--> (r: f64)
-//@ rewrite
-self.edges.len() as f64
-//@ with
-vcast_usize_f64(self.edges.len())
-//@ rewrite
-self.nodes_vec.len() as f64
-//@ with
-vcast_usize_f64(self.nodes_vec.len())
-//@ spec
-    requires
-        key_model_ok::<T>(),
-    ensures
-        // [C09.density.formula]
-        self.edges@.len() == 0 ==> r == 0.0f64,
-        self.edges@.len() != 0 ==> ({
-            let m = usize_to_f64(self.edges@.len() as usize);
-            let n = usize_to_f64(self.nodes_vec@.len() as usize);
-            &&& self.specs.directed ==> r == fdiv(m, fmul(n, fsub(n, 1.0f64)))
-            &&& !self.specs.directed ==> r == fdiv(fmul(2.0f64, m), fmul(n, fsub(n, 1.0f64)))
-        }),
-//@ end
-
-//@ extract fn src/graph/query.rs get_node_by_index props=C02,C20 ty=Graph
-//@ rewrite
--> Option<&Arc<Node<T, A>>>
-//@ with
--> (r: Option<&Arc<Node<T, A>>>)
-//@ spec
-    requires
-        self.wf_nodes(),
-    ensures
-        // [C02.lookup.index_to_node]
-        *node_index < self.nodes_vec@.len() ==> r.is_some() && **r.unwrap() == *self.nodes_vec@[*node_index as int],
-        *node_index >= self.nodes_vec@.len() ==> r.is_none(),
-//@ end
-}
-
+//@ include graph_fns.rs
 } // verus!
 fn main() {}
